@@ -19,14 +19,15 @@ pub fn check(tier: Tier) -> Check {
         ));
     }
     parts.push(Part::new("C11/hook-validate", json!({}), 0, 120));
+    parts.push(Part::new("C11/loom", json!({"thorough": tier == Tier::Thorough}), 0, 600));
     Check {
         also_rel: false,
         property: "C11",
         level: "model_checking",
-        rule: "(a) 12 deterministic runs of 70 000 identifier-consuming operations through the real handle/context (QoS 1 only, QoS 2 only, subscribe only, round robin) with 0, 1 or 3 acknowledgements outstanding; (b) all sequences of operation starts and acknowledgements up to the stated depth from counters preset (hook) to 65533/65534/65535 and subscription identifiers preset to 1/127/268435454; (c) differential validation of the hook against an honest run to the same point; oracle: every identifier on the wire is non-zero (strict decoder), differs from every outstanding one, subscription identifiers are never reused, no panic; non-trivial = the packet identifier counter wrapped".into(),
+        rule: "(a) 12 deterministic runs of 70 000 identifier-consuming operations through the real handle/context (QoS 1 only, QoS 2 only, subscribe only, round robin) with 0, 1 or 3 acknowledgements outstanding; (b) all sequences of operation starts and acknowledgements up to the stated depth from counters preset (hook) to 65533/65534/65535 and subscription identifiers preset to 1/127/268435454; (c) differential validation of the hook against an honest run to the same point; (d) loom: all interleavings (unbounded; 3x2 with preemption bound 3 in thorough) of 2 threads x 2 and 3 threads x 1 first polls of publish QoS 1/2, subscribe, unsubscribe on real handle clones at the two library atomics, started at counters 1 and next to the wrap, drained through the real Context and decoded; oracle: every identifier on the wire is non-zero (strict decoder), differs from every outstanding one, subscription identifiers are never reused, no panic; non-trivial = the packet identifier counter wrapped".into(),
         assumptions: vec![
             "fewer than 65535 identifiers are allocated while any operation is outstanding (premise of the property)".into(),
-            "interleavings of real threads at the two atomics are explored separately by the loom harness".into(),
+            "loom explores interleavings at the two library atomics only; futures-channel (std atomics) is in the trusted base".into(),
         ],
         parts,
     }
@@ -166,6 +167,7 @@ fn hook_validate(name: String, params: Value) -> Scenario {
 
 pub fn scenario(name: &str, params: &Value) -> Scenario {
     match name {
+        "C11/loom" => return loom_part(name.to_string(), params.clone()),
         "C11/long" => return long(name.to_string(), params.clone()),
         "C11/hook-validate" => return hook_validate(name.to_string(), params.clone()),
         _ => {}
@@ -200,6 +202,58 @@ pub fn scenario(name: &str, params: &Value) -> Scenario {
             sys.m.hits.push("pid-wrapped");
         }
         let _ = SPacket::Pingresp;
+        sys.report(ex, &["pid-wrapped"]);
+    })
+}
+
+/// E4: the loom harness is a separate binary (built with --cfg poster_verif_loom); its schedules are
+/// counted as transitions of this part.
+fn loom_part(name: String, params: Value) -> Scenario {
+    Box::new(move |chz, ex| {
+        let mut sys = Sys::new("C11", &name, chz);
+        sys.params = params.clone();
+        let bin = match std::env::var("PV_LOOM_BIN") {
+            Ok(b) => b,
+            Err(_) => {
+                eprintln!("MACHINERY: PV_LOOM_BIN is not set (run through ./check)");
+                std::process::exit(2);
+            }
+        };
+        let mut cmd = std::process::Command::new(&bin);
+        if params["thorough"].as_bool().unwrap_or(false) {
+            cmd.arg("thorough");
+        }
+        let out = match cmd.output() {
+            Ok(o) => o,
+            Err(e) => {
+                eprintln!("MACHINERY: cannot run {}: {}", bin, e);
+                std::process::exit(2);
+            }
+        };
+        let text = String::from_utf8_lossy(&out.stdout).to_string();
+        let ok = text.lines().find(|l| l.starts_with("LOOM-OK"));
+        let bad = text.lines().find(|l| l.starts_with("LOOM-VIOLATION"));
+        sys.events.push(format!("loom: {}", ok.or(bad).unwrap_or("(no verdict)")));
+        if let Some(l) = ok {
+            let n: u64 = l
+                .split_whitespace()
+                .find_map(|w| w.strip_prefix("schedules=").and_then(|v| v.parse().ok()))
+                .unwrap_or(0);
+            sys.transitions = n;
+            sys.m.hits.push("pid-wrapped");
+        } else if let Some(l) = bad {
+            sys.classes.push("LoomInterleaving".into());
+            sys.violations.push(pvcore::explore::Violation {
+                property: "C11".into(),
+                rule: "C11/loom".into(),
+                witness: l.split(':').next().unwrap_or(l).chars().take(80).collect(),
+                detail: format!("{}\n stderr tail: {}", l, String::from_utf8_lossy(&out.stderr).chars().rev().take(600).collect::<String>().chars().rev().collect::<String>()),
+                replay: json!({"scenario": name, "params": params, "choices": [], "how": "run /verif/.build/target-loom/release/pvloom; loom prints the failing schedule"}),
+            });
+        } else {
+            eprintln!("MACHINERY: loom harness gave no verdict (exit {:?}): {}", out.status, String::from_utf8_lossy(&out.stderr));
+            std::process::exit(2);
+        }
         sys.report(ex, &["pid-wrapped"]);
     })
 }
